@@ -2,7 +2,7 @@
    _append_to_queue, _get_queue), as tools/py2coq.py (py2coq_queue.py) generates it from /repo's working tree on every run of C03: for the members of
    one connected component (distinct strings of one length whose anticommutation graph is connected) _get_queue terminates and returns a permutation of
    its input in which every member after the first anticommutes with an earlier one — the order the canonical-graph pipeline relies on. *)
-From PauLie Require Import Pauli Collection CollectionT ParserT OtocLoopT.
+From PauLie Require Import Pauli Collection CollectionT ParserT OtocLoopT MatrixT ClosureN ClosureT.
 From PauLieRefine Require Import PySem.
 From PauLieGen Require Import QueueGen.
 From Coq Require Import Lia ZifyBool Permutation.
@@ -296,8 +296,64 @@ Example gen_queue_runs :
   py_Q__get_queue 200 [[PX;PX];[PZ;PZ]] = FOutOfFuel /\ py_Q__get_queue 5 [] = FRaised (EUser "ValueError").
 Proof. repeat split; vm_compute; reflexivity. Qed.
 
+
+(* ---- check_dependency_one_leg: what the dependency test of append_to_center looks at ---- *)
+Lemma raise_fold {X} (F : fres unit -> X -> fres unit) (test : X -> bool) (e : exn) :
+  (forall x, F (FRet tt) x = if test x then FRaised e else FRet tt) -> (forall x, F (FRaised e) x = FRaised e) ->
+  forall l, fold_left F l (FRet tt) = if existsb test l then FRaised e else FRet tt.
+Proof.
+  intros H1 H2. induction l as [|x l IH]; [reflexivity|]. cbn [fold_left existsb]. rewrite H1. destruct (test x); cbn [orb]; [|exact IH].
+  clear IH. induction l as [|y l IH]; [reflexivity|]. cbn [fold_left]. rewrite H2. exact IH.
+Qed.
+(* the relation the test can see: lighting = one . v . w for a single leg `one` and vertices v <> one, w (or v = the identity-producing case w = lighting) *)
+Definition dep_test (verts : list pstr) (lighting one : pstr) : bool :=
+  existsb (fun v => negb (pstr_eqb v one) && (memS (smul (smul one lighting) v) verts || pstr_eqb (smul (smul one lighting) v) lighting)) verts.
+Theorem gen_q_check_dependency legs lighting n ones : py_Q_get_one_vertices legs = FRet ones -> SameLen n (concat legs) -> SameLen n ones -> length lighting = n ->
+  py_Q_check_dependency_one_leg legs lighting = if existsb (dep_test (concat legs) lighting) ones then FRaised (EUser "DependentException") else FRet tt.
+Proof.
+  intros HO HV HL Hl. unfold py_Q_check_dependency_one_leg. rewrite HO. unfold py_Q_get_vertices. cbv beta iota zeta.
+  set (verts := concat legs) in *.
+  match goal with |- context [fold_left ?F0 ones (FRet tt)] => set (F := F0) end.
+  assert (HF : forall l, (forall x, In x l -> In x ones) -> fold_left F l (FRet tt) = if existsb (dep_test verts lighting) l then FRaised (EUser "DependentException") else FRet tt).
+  { induction l as [|one l IH]; intros Hsub; [reflexivity|]. cbn [fold_left existsb].
+    assert (Lone : length one = n) by (apply HL; apply Hsub; left; reflexivity).
+    assert (Hstep : F (FRet tt) one = if dep_test verts lighting one then FRaised (EUser "DependentException") else FRet tt).
+    { unfold F. cbv beta iota zeta. rewrite (multiply_code_ok one lighting) by congruence.
+      match goal with |- context [fold_left ?G0 verts (FRet tt)] => set (G := G0) end.
+      assert (HG : forall l', (forall x, In x l' -> In x verts) -> fold_left G l' (FRet tt) =
+        if existsb (fun v => negb (pstr_eqb v one) && (memS (smul (smul one lighting) v) verts || pstr_eqb (smul (smul one lighting) v) lighting)) l' then FRaised (EUser "DependentException") else FRet tt).
+      { induction l' as [|v l' IH']; intros Hs'; [reflexivity|]. cbn [fold_left existsb].
+        assert (Hv : G (FRet tt) v = if negb (pstr_eqb v one) && (memS (smul (smul one lighting) v) verts || pstr_eqb (smul (smul one lighting) v) lighting) then FRaised (EUser "DependentException") else FRet tt).
+        { unfold G. cbv beta iota zeta. destruct (pstr_eqb v one); [reflexivity|]. cbn [negb andb].
+          rewrite (multiply_code_ok (smul one lighting) v) by (rewrite smul_length by congruence; rewrite Lone; symmetry; apply HV; apply Hs'; left; reflexivity). reflexivity. }
+        rewrite Hv. destruct (negb (pstr_eqb v one) && (memS (smul (smul one lighting) v) verts || pstr_eqb (smul (smul one lighting) v) lighting)); cbn [orb].
+        - clear. induction l' as [|y l' IHy]; [reflexivity|]. cbn [fold_left]. exact IHy.
+        - apply IH'. intros x Hx. apply Hs'. right. exact Hx. }
+      rewrite (HG verts (fun x Hx => Hx)). unfold dep_test. destruct (existsb _ verts); reflexivity. }
+    rewrite Hstep. destruct (dep_test verts lighting one); cbn [orb].
+    - clear. induction l as [|y l IHy]; [reflexivity|]. cbn [fold_left]. exact IHy.
+    - apply IH. intros x Hx. apply Hsub. right. exact Hx. }
+  rewrite (HF ones (fun x Hx => Hx)). destruct (existsb (dep_test verts lighting) ones); reflexivity.
+Qed.
+
+(* the listed classifier defect (a single leg in the span of the single legs), on the source's own test: a star with centre XXXXX and the five single
+   legs Z_i; the candidate ZZZZZ lights the centre only, it IS in the commutator closure of the six vertices (the closure has 48 strings = 16 so(3)),
+   and check_dependency_one_leg lets it pass — it would become a sixth single leg.  The product of THREE single legs is caught. *)
+Definition star5 : list (list pstr) := [[[PX;PX;PX;PX;PX]]; [[PZ;PI;PI;PI;PI]]; [[PI;PZ;PI;PI;PI]]; [[PI;PI;PZ;PI;PI]]; [[PI;PI;PI;PZ;PI]]; [[PI;PI;PI;PI;PZ]]].
+Theorem gen_q_check_dependency_refuted :
+  py_Q_check_dependency_one_leg star5 [PZ;PZ;PZ;PZ;PZ] = FRet tt /\
+  (exists L, closure_strs 5 (concat star5) = Some L /\ length L = 48%nat /\ In [PZ;PZ;PZ;PZ;PZ] L) /\
+  py_Q_check_dependency_one_leg star5 [PZ;PZ;PZ;PI;PI] = FRaised (EUser "DependentException").
+Proof.
+  split; [vm_compute; reflexivity|]. split; [|vm_compute; reflexivity].
+  destruct (closure_strs 5 (concat star5)) as [L|] eqn:E; [|vm_compute in E; discriminate E]. exists L. split; [reflexivity|].
+  vm_compute in E. injection E as <-. split; [reflexivity|]. cbn. tauto.
+Qed.
+
 Print Assumptions gen_q_anti_commutates.
 Print Assumptions gen_q_max_connected.
 Print Assumptions gen_q_append_to_queue.
 Print Assumptions gen_q_get_queue.
 Print Assumptions gen_queue_runs.
+Print Assumptions gen_q_check_dependency.
+Print Assumptions gen_q_check_dependency_refuted.
